@@ -59,7 +59,12 @@ def execute(sc: dict, seed: int) -> dict:
     fails = gen.applicable_failures(base)
     unres = [f for f in fails if f[0] == "unresolvable"]
     leafx = [f for f in fails if f[0] == "leaf_exception"]
-    for tz in sc["tzs"]:
+    base_ctx_items = list(base["context"].items())
+    for tz_i, tz in enumerate(sc["tzs"]):
+        # equal content, different insertion order: "equal content gives equal digests"
+        items = list(base_ctx_items)
+        random.Random(sc["sub_seed"] + tz_i).shuffle(items)
+        base = dict(base, context=dict(items))
         w = SimWorld(seed ^ hash_tz(tz), lane="c07", tz=tz)
         w.remote_exec = bool(sc.get("remote_exec"))
         if w.remote_exec:
